@@ -33,6 +33,10 @@ def tree_class(cn):
     return (tuple(sorted(sig(c) for c in tops)), len(outl))
 
 
+def count_clones(tops):
+    return sum(1 + count_clones(kids) for _, kids in tops)
+
+
 def chunk_task(item):
     c, pairs = item
     from phyclone.tree import FSCRPDistribution, TreeJointDistribution
@@ -107,6 +111,26 @@ def run_stat(c, M, seed):
     worst = max(big, key=lambda k: abs(obs[k] - big[k]) / math.sqrt(big[k])) if big else None
     stats = {"M": M, "states": len(pi), "classes": len(exp), "chi2": round(chi, 2), "df": df, "threshold": round(thr, 2),
              "moved": sum(1 for s, x in zip(starts, res) if x != s)}
+    # a second, coarser statistic with more power against shifts of mass between trees of few and of many clones:
+    # classes = (number of clones, number of outliers)
+    cexp, cobs = {}, {}
+    for k in exp:
+        ck = (count_clones(k[0]), k[1])
+        cexp[ck] = cexp.get(ck, 0.0) + exp[k]
+        cobs[ck] = cobs.get(ck, 0) + obs[k]
+    cbig = {k: e for k, e in cexp.items() if e >= 25}
+    crest_e = sum(e for k, e in cexp.items() if k not in cbig)
+    crest_o = sum(o for k, o in cobs.items() if k not in cbig)
+    cchi = sum((cobs[k] - e) ** 2 / e for k, e in cbig.items()) + ((crest_o - crest_e) ** 2 / crest_e if crest_e > 0 else 0.0)
+    cdf = max(len(cbig) + (1 if crest_e > 0 else 0) - 1, 1)
+    cthr = cdf * (1 - 2.0 / (9 * cdf) + z * math.sqrt(2.0 / (9 * cdf))) ** 3
+    stats.update({"chi2_clone_counts": round(cchi, 2), "df_clone_counts": cdf, "threshold_clone_counts": round(cthr, 2)})
+    if cchi > cthr and not n_exc and not (chi > thr):
+        cw = max(cbig, key=lambda k: abs(cobs[k] - cbig[k]) / math.sqrt(cbig[k]))
+        problems.append((dict(key, sub="sampled_invariance"),
+                         "after one update from exact posterior samples the distribution of (clones, outliers) differs from pi: chi2=%.1f on %d df (alarm above %.1f); "
+                         "trees with %d clones and %d outliers observed %d expected %.1f" % (cchi, cdf, cthr, cw[0], cw[1], cobs[cw], cexp[cw]),
+                         {"M": M, "seed": seed}))
     if chi > thr and not n_exc:
         problems.append((dict(key, sub="sampled_invariance"),
                          "after one update from exact posterior samples the class distribution differs from pi: chi2=%.1f on %d df (alarm above %.1f); "
